@@ -167,6 +167,9 @@ pub struct StateRec {
     pub kw: Vec<KwRec>,
     pub used: i64,
     pub max: i64,
+    /// exact comparisons of the real 64-bit values (the fields above are clamped): total above the cache weight / below zero
+    pub over: bool,
+    pub neg: bool,
     pub ttl: Vec<Vec<TtlRec>>,
     pub qlen: i64,
     pub chlen: i64,
